@@ -181,6 +181,18 @@ Proof.
   - (* chewing_cand_close *)
     split; [exact I|]. intros c' H. inversion H; subst c'. unfold cand_close, ml_cancel. constructor; cbn [cx_ed cx_kb fst with_ed]; [|exact Hk].
     eapply (e_step_inv (cx_ed c) OpCancel); [exact I | exact Hi | reflexivity].
+  - (* chewing_cand_list_first / last / next / prev *)
+    unfold cand_list. destruct (negb (is_selecting_b (cx_ed c))); [split; [exact I | intros c' H; inversion H; subst; exact Hc]|].
+    set (o := match which with 0%N => OpJumpFirst | 1%N => OpJumpLast | 2%N => OpJumpNext | _ => OpJumpPrev end).
+    pose proof (e_fine_step (cx_ed c) o ltac:(destruct which as [|[p|[p|p|]|]]; exact I) Hi) as F.
+    assert (Es : step md_ops lay_ops conv (cx_ed c) o =
+                 fst_ok (match which with 0%N => ml_jump_first (cx_ed c) | 1%N => ml_jump_last (cx_ed c) | 2%N => ml_jump_next (cx_ed c) | _ => ml_jump_prev (cx_ed c) end))
+      by (unfold o; destruct which as [|[p|[p|p|]|]]; reflexivity).
+    rewrite Es in F. unfold fst_ok in F.
+    destruct (match which with 0%N => ml_jump_first (cx_ed c) | 1%N => ml_jump_last (cx_ed c) | 2%N => ml_jump_next (cx_ed c) | _ => ml_jump_prev (cx_ed c) end)
+      as [[e b]| | |] eqn:Ej; cbn [drop_rc fst]; try (split; [exact F | intros c' H; discriminate H]).
+    split; [exact I|]. intros c' H. inversion H; subst c'. constructor; cbn [cx_ed cx_kb with_ed]; [|exact Hk].
+    eapply (e_step_inv (cx_ed c) o); [destruct which as [|[p|[p|p|]|]]; exact I | exact Hi |]. rewrite Es. unfold fst_ok. reflexivity.
   - (* chewing_commit_preedit_buf *)
     unfold commit_preedit, ml_commit.
     pose proof (e_fine_step (cx_ed c) OpCommit I Hi) as F. cbn [step] in F. unfold fst_ok in F.
